@@ -210,3 +210,11 @@ func findFuncDecl(c *core.Ctx, pkg, name string) (*ast.FuncDecl, *types.Info) {
 	}
 	return d, p.TypesInfo
 }
+
+// currentName returns the name a reference anchor carries on the analysed tree (it may have been renamed).
+func currentName(c *core.Ctx, pkg, name string) string {
+	if f := c.LookupFunc(pkg, name); f != nil {
+		return f.Name()
+	}
+	return name
+}
